@@ -1,7 +1,8 @@
 #!/bin/bash
 # Confirms seeded changes in a scratch worktree: patch applies, existing suite unchanged (239 pass / 2 fail /
 # doctests pass), demonstration fails with the change and passes without it. Usage: confirm_seeded.sh <dir>...
-# where each <dir> holds patch.diff, seeded_demo.rs, meta.json. Prints one line per change.
+# where each <dir> holds patch.diff, seeded_demo.rs, meta.json (and, for cooperating-site changes, edit1.diff,
+# edit2.diff: each alone must leave the demonstration passing). Prints one line per change.
 WT=/tmp/confirm_wt
 git -C /repo worktree remove --force $WT 2>/dev/null
 git -C /repo worktree add -q --detach $WT HEAD || exit 1
@@ -17,6 +18,13 @@ for d in "$@"; do
   cargo test --offline --test seeded_demo >/tmp/confirm_demo.out 2>&1; with=$?
   git checkout -q -- src
   cargo test --offline --test seeded_demo >/tmp/confirm_demo2.out 2>&1; without=$?
-  echo "$d suite_unchanged=$suite_ok demo_with_change_rc=$with demo_without_change_rc=$without"
+  singles=""
+  for e in "$d"/edit[0-9].diff; do
+    [ -f "$e" ] || continue
+    git checkout -q -- src
+    if git apply "$e" 2>/dev/null; then cargo test --offline --test seeded_demo >/tmp/confirm_demo3.out 2>&1; singles="$singles $(basename $e .diff)_alone_rc=$?"; else singles="$singles $(basename $e .diff)=APPLY-FAIL"; fi
+  done
+  git checkout -q -- src
+  echo "$d suite_unchanged=$suite_ok demo_with_change_rc=$with demo_without_change_rc=$without$singles"
 done
 cd /; git -C /repo worktree remove --force $WT
